@@ -1,4 +1,5 @@
 import FastorModel.Proofs.ViewWrite
+import FastorModel.Proofs.Odometer
 import Mathlib.Data.List.Nodup
 import Mathlib.Data.List.Range
 /-
@@ -19,11 +20,16 @@ import Mathlib.Data.List.Range
   * `vector_route_no_spill`      a vector store is issued only on a unit-step run and all its lanes are
                                  elements of that run (never past the end of the selected row);
                                  `odo_vector_only_if` the n-D views store vectors only when `_is_vectorisable`.
+  * `norm_admissible`            every view class maps every admissible encoding (plain, `last`-relative, both ends from the end) of
+                                 `0 ≤ f < l ≤ n, s ≥ 1` to the axis (f, s, ⌈(l-f)/s⌉) whose elements lie inside the parent axis
+                                 (`seq::size` with C++ truncating `/ %`): the hypotheses of the write theorems hold for them.
   * `writes_seq`                 sequences of writes compose: the memory after a history is the fold of the
                                  per-write specifications.
-  NOT proved here (tied by the correspondence only: ordered store positions + whole-tensor image of every n-D
-  case): that the n-D odometer `odoLoop` visits every multi-index exactly once in row-major order.  Given
-  that enumeration, `write_correct_of_distinct` is the n-D statement.
+  * `write_correct_nd`           n-D views of EVERY rank (odometer; equal-order binders and scalar right-hand sides; vector and
+                                 scalar branch): via `steps_box` (the odometer visits the box exactly once in row-major
+                                 order, induction on the rank), `odo_lanes`, `pos_nodup` (mixed-radix injectivity).
+  * `write_correct_nd_flat`      the binders of unequal order (rhs read through the running `counter`): `odo_flat_eq` shows the
+                                 counter is the flat index of the visited multi-index, so it is the same program.
 -/
 namespace Fastor.C05
 open Fastor Fastor.ViewWrite
@@ -207,6 +213,231 @@ theorem odo_vector_only_if (V : Nat) (dims : List Nat) (axs : List Ax) (flatRhs 
   obtain ⟨_, _, rfl⟩ := hit
   simp at hk
 
+/-! ### n-D views: every rank -/
+
+/-- every selected coordinate of every axis lies inside the parent's axis, steps are positive -/
+def InBounds : List Nat → List Ax → Prop
+  | d :: ds, a :: axs => 0 < a.step ∧ (∀ k < a.ext, k * a.step + a.first < d) ∧ InBounds ds axs
+  | [], [] => True
+  | _, _ => False
+
+theorem box_ones_cons (e : Nat) (es : List Nat) :
+    box (((e :: es).map fun e => (e, 1))) = (List.range e).flatMap fun x => (box (es.map fun e => (e, 1))).map (x :: ·) := by
+  simp [box, forRange_range]
+
+theorem pos_lt : ∀ (dims : List Nat) (axs : List Ax), InBounds dims axs →
+    ∀ j ∈ box ((axs.map (·.ext)).map fun e => (e, 1)), posOf dims axs j < dims.prod := by
+  intro dims
+  induction dims with
+  | nil =>
+    intro axs hin j _
+    cases axs with
+    | nil => simp [posOf]
+    | cons a r => simp [InBounds] at hin
+  | cons d ds ih =>
+    intro axs hin j hj
+    cases axs with
+    | nil => simp [InBounds] at hin
+    | cons a rest =>
+      obtain ⟨_, hb, hrest⟩ := hin
+      rw [List.map_cons, box_ones_cons] at hj
+      obtain ⟨x, hx, hj⟩ := List.mem_flatMap.1 hj
+      obtain ⟨js, hjs, rfl⟩ := List.mem_map.1 hj
+      have h1 := ih rest hrest js hjs
+      have h2 := hb x (List.mem_range.1 hx)
+      show (x * a.step + a.first) * ds.prod + posOf ds rest js < (d :: ds).prod
+      rw [List.prod_cons]
+      have : (x * a.step + a.first + 1) * ds.prod ≤ d * ds.prod := Nat.mul_le_mul_right _ h2
+      rw [Nat.add_mul, Nat.one_mul] at this
+      omega
+
+/-- distinct multi-indices of the slice are stored at distinct positions (mixed-radix argument) -/
+theorem pos_nodup : ∀ (dims : List Nat) (axs : List Ax), InBounds dims axs → ∀ pb : Nat,
+    ((box ((axs.map (·.ext)).map fun e => (e, 1))).map fun j => pb + posOf dims axs j).Nodup := by
+  intro dims
+  induction dims with
+  | nil =>
+    intro axs hin pb
+    cases axs with
+    | nil => simp [box]
+    | cons a r => simp [InBounds] at hin
+  | cons d ds ih =>
+    intro axs hin pb
+    cases axs with
+    | nil => simp [InBounds] at hin
+    | cons a rest =>
+      obtain ⟨hs, hb, hrest⟩ := hin
+      rw [List.map_cons, box_ones_cons, List.map_flatMap, List.nodup_flatMap]
+      refine ⟨?_, ?_⟩
+      · intro x _
+        rw [List.map_map]
+        have := ih rest hrest (pb + (x * a.step + a.first) * ds.prod)
+        simpa [Function.comp_def, posOf, Nat.add_assoc] using this
+      · apply List.Pairwise.imp _ (List.pairwise_lt_range (n := a.ext))
+        intro x y hxy
+        simp only [Function.onFun, List.disjoint_left, List.map_map, List.mem_map, Function.comp]
+        rintro p ⟨js, hjs, rfl⟩ ⟨js', hjs', hpe⟩
+        have h1 := pos_lt ds rest hrest js (by simpa [List.map_map] using hjs)
+        have h2 := pos_lt ds rest hrest js' (by simpa [List.map_map] using hjs')
+        have hX : x * a.step + a.first + 1 ≤ y * a.step + a.first := by
+          have := Nat.mul_lt_mul_of_pos_right hxy hs; omega
+        have hXP := Nat.mul_le_mul_right ds.prod hX
+        rw [Nat.add_mul, Nat.one_mul] at hXP
+        simp only [posOf] at hpe
+        omega
+
+/-- **write_correct, n-D views, every rank** (`TensorViewExpr<…,DIMS>`, `TensorFixedViewExprnD`, binders of equal
+    order and scalar right-hand sides): the odometer visits every multi-index `j` of the slice exactly once; element
+    `j`, stored at `posOf dims axs j = Σ_k products_k (j_k step_k + first_k)`, ends as `op(old, rhs (flat j))`, and every
+    other position of memory is unchanged — for every width, vector branch or scalar branch. -/
+theorem write_correct_nd (V : Nat) (hV : 0 < V) (dims : List Nat) (axs : List Ax) (hne : axs ≠ [])
+    (hin : InBounds dims axs) (hlen : dims.length = axs.length) (hext : ∀ a ∈ axs, 0 < a.ext)
+    (cstep : Nat) (hcs : cstep = V ∨ cstep = 1) (op : WOp) (r : Nat → α) (m : Nat → α) :
+    let exts := axs.map (·.ext)
+    let m' := exec op (fun _ => r) (odoIters V dims axs false cstep) m
+    (∀ j ∈ box (exts.map fun e => (e, 1)), m' (posOf dims axs j) = op.ap (m (posOf dims axs j)) (r (flat exts j))) ∧
+    (∀ p, (∀ j ∈ box (exts.map fun e => (e, 1)), p ≠ posOf dims axs j) → m' p = m p) := by
+  intro exts m'
+  have hl := odo_lanes V hV dims axs hne hlen hext cstep hcs
+  rw [incs_one] at hl
+  have hnd : ((lanesOf (odoIters V dims axs false cstep)).map (·.1)).Nodup := by
+    rw [hl, List.map_map]
+    have := pos_nodup dims axs hin 0
+    simpa [Function.comp_def] using this
+  have h := exec_spec op r (odoIters V dims axs false cstep) m hnd
+  refine ⟨?_, ?_⟩
+  · intro j hj
+    have hmem : (posOf dims axs j, flat exts j) ∈ lanesOf (odoIters V dims axs false cstep) := by
+      rw [hl]; exact List.mem_map.2 ⟨j, hj, rfl⟩
+    exact h.1 _ hmem
+  · intro p hp
+    apply h.2
+    rw [hl]
+    intro hmem
+    simp only [List.map_map, List.mem_map, Function.comp] at hmem
+    obtain ⟨j, hj, hjp⟩ := hmem
+    exact hp j (by simpa [exts, List.map_map] using hj) hjp.symm
+
+/-- **write_correct, n-D views, binders of unequal order** (the right-hand side is read through the running `counter`):
+    the same statement, element `j` taking rhs element number `flat j` -/
+theorem write_correct_nd_flat (V : Nat) (hV : 0 < V) (dims : List Nat) (axs : List Ax) (hne : axs ≠ [])
+    (hin : InBounds dims axs) (hlen : dims.length = axs.length) (hext : ∀ a ∈ axs, 0 < a.ext)
+    (op : WOp) (r : Nat → α) (m : Nat → α) :
+    let exts := axs.map (·.ext)
+    let m' := exec op (fun _ => r) (odoIters V dims axs true V) m
+    (∀ j ∈ box (exts.map fun e => (e, 1)), m' (posOf dims axs j) = op.ap (m (posOf dims axs j)) (r (flat exts j))) ∧
+    (∀ p, (∀ j ∈ box (exts.map fun e => (e, 1)), p ≠ posOf dims axs j) → m' p = m p) := by
+  rw [odo_flat_eq V hV dims axs hne hext]
+  exact write_correct_nd V hV dims axs hne hin hlen hext V (Or.inl rfl) op r m
+
+/-- non-vacuity: a 3-D slice `A(seq(0,2), seq(1,4,2), seq(2,6))` of a 2x4x6 tensor -/
+example : InBounds [2, 4, 6] [⟨0, 1, 2⟩, ⟨1, 2, 2⟩, ⟨2, 1, 4⟩] := by
+  simp only [InBounds]; decide
+
+/-! ### range normalisation: from the caller's triple to the normalised axis -/
+
+/-- the admissible encodings of the slice `f, f+s, … < l` (`0 ≤ f < l ≤ n`, `s ≥ 1`) of an axis of `n` elements:
+    plain, `last`-relative end, both ends counted from the end, and the integer index `-1` (not for the dynamic 1-D view) -/
+inductive Enc (n f l s : Nat) : Seq → Prop
+  | plain : Enc n f l s ⟨f, l, s⟩
+  | lastRel : Enc n f l s ⟨f, (l : Int) - (n + 1), s⟩
+  | bothRel : Enc n f l s ⟨(f : Int) - (n + 1), (l : Int) - (n + 1), s⟩
+
+theorem size_nat (f l s : Nat) (hfl : f < l) (hs : 0 < s) :
+    (Seq.size ⟨f, l, s⟩).toNat = (l - f + (s - 1)) / s := by
+  unfold Seq.size
+  simp only
+  have hr : ((l : Int) - f) = ((l - f : Nat) : Int) := by omega
+  rw [hr]
+  generalize l - f = d
+  rw [Int.tmod_eq_emod_of_nonneg (by omega), Int.tdiv_eq_ediv_of_nonneg (by omega)]
+  have hmodc : ((d : Int) % (s : Int)) = ((d % s : Nat) : Int) := by norm_cast
+  have hdivc : ((d : Int) / (s : Int)) = ((d / s : Nat) : Int) := by norm_cast
+  rw [hmodc, hdivc]
+  obtain ⟨q, r, rfl, hrs⟩ : ∃ q r, d = s * q + r ∧ r < s := ⟨d / s, d % s, (Nat.div_add_mod d s).symm, Nat.mod_lt d hs⟩
+  have hq : (s * q + r) / s = q := by rw [Nat.mul_add_div hs, Nat.div_eq_of_lt hrs, Nat.add_zero]
+  have hm : (s * q + r) % s = r := by rw [Nat.mul_add_mod, Nat.mod_eq_of_lt hrs]
+  rw [hm, hq]
+  by_cases hr0 : r = 0
+  · subst hr0
+    simp only [Int.natCast_zero, if_true, Int.toNat_natCast, Nat.add_zero]
+    rw [Nat.mul_add_div hs, Nat.div_eq_of_lt (by omega), Nat.add_zero]
+  · have hne : ¬ ((r : Int) = 0) := by omega
+    simp only [hne, if_false]
+    have : ((q : Int)) + 1 = ((q + 1 : Nat) : Int) := by push_cast; rfl
+    rw [this, Int.toNat_natCast]
+    have h2 : s * q + r + (s - 1) = s * (q + 1) + (r - 1) := by
+      rw [Nat.mul_add, Nat.mul_one]; omega
+    rw [h2, Nat.mul_add_div hs, Nat.div_eq_of_lt (by omega), Nat.add_zero]
+
+theorem normN_enc (n f l s : Nat) (hfl : f < l) (hln : l ≤ n) (q : Seq) (h : Enc n f l s q) :
+    normN n q = ⟨f, l, s⟩ := by
+  cases h with
+  | plain => unfold normN; simp only; split <;> first | omega | (split <;> first | omega | (split <;> first | omega | rfl))
+  | lastRel =>
+    unfold normN; simp only
+    have h1 : (l : Int) - (n + 1) < 0 := by omega
+    simp only [h1, true_and, Int.natCast_nonneg, ge_iff_le, if_true]
+    congr 1; omega
+  | bothRel =>
+    unfold normN; simp only
+    have h1 : (l : Int) - (n + 1) < 0 := by omega
+    have h2 : ¬ ((f : Int) - (n + 1) ≥ 0) := by omega
+    have h3 : (f : Int) - (n + 1) < 0 := by omega
+    have h4 : ¬ ((l : Int) - (n + 1) = 0) := by omega
+    simp only [h1, h2, h3, h4, and_false, false_and, and_self, if_false, if_true]
+    congr 1 <;> omega
+
+theorem norm1_enc (n f l s : Nat) (hfl : f < l) (hln : l ≤ n) (q : Seq) (h : Enc n f l s q) :
+    norm1 n q = ⟨f, l, s⟩ := by
+  cases h with
+  | plain =>
+    unfold norm1; simp only
+    have h1 : ¬ ((l : Int) < 0) := by omega
+    have h2 : ¬ ((f : Int) < 0) := by omega
+    simp [h1, h2]
+  | lastRel =>
+    unfold norm1; simp only
+    have h1 : (l : Int) - (n + 1) < 0 := by omega
+    have h2 : ¬ ((f : Int) < 0) := by omega
+    simp only [h1, h2, if_true, if_false]
+    congr 1; omega
+  | bothRel =>
+    unfold norm1; simp only
+    have h1 : (l : Int) - (n + 1) < 0 := by omega
+    have h3 : (f : Int) - (n + 1) < 0 := by omega
+    simp only [h1, h3, if_true]
+    congr 1 <;> omega
+
+/-- **norm_admissible**: every view class maps every admissible encoding to the axis `first = f`, `step = s`,
+    `ext = ⌈(l-f)/s⌉`, all of whose elements lie below `l ≤ n` -/
+theorem norm_admissible (c : Cls) (n f l s : Nat) (hfl : f < l) (hln : l ≤ n) (hs : 0 < s) (q : Seq) (h : Enc n f l s q) :
+    let a := Ax.ofSeq (c.norm n q)
+    a.first = f ∧ a.step = s ∧ a.ext = (l - f + (s - 1)) / s ∧ 0 < a.ext ∧ ∀ k < a.ext, k * a.step + a.first < n := by
+  intro a
+  have hq : c.norm n q = ⟨f, l, s⟩ := by
+    cases c <;> first | exact norm1_enc n f l s hfl hln q h | exact normN_enc n f l s hfl hln q h
+  have ha : a = ⟨f, s, (l - f + (s - 1)) / s⟩ := by
+    show Ax.ofSeq (c.norm n q) = _
+    rw [hq]; unfold Ax.ofSeq
+    simp only [Int.toNat_natCast]
+    rw [size_nat f l s hfl hs]
+  rw [ha]
+  refine ⟨rfl, rfl, rfl, ?_, ?_⟩
+  · show 0 < (l - f + (s - 1)) / s
+    apply Nat.div_pos <;> omega
+  · intro k hk
+    show k * s + f < n
+    have hk' : k < (l - f + (s - 1)) / s := hk
+    have := (Nat.lt_div_iff_mul_lt hs).1 hk'
+    have h2 : k * s + s ≤ l - f + (s - 1) := by
+      have : (k + 1) * s ≤ l - f + (s - 1) := by
+        have h3 : k + 1 ≤ (l - f + (s - 1)) / s := hk'
+        exact (Nat.le_div_iff_mul_le hs).1 h3
+      rw [Nat.add_mul, Nat.one_mul] at this; exact this
+    omega
+
+example : Enc 9 2 9 3 ⟨2, -1, 3⟩ := Enc.lastRel
 /-- **writes_seq**: a history of writes, each with pairwise distinct stored positions, leaves the memory
     obtained by folding the per-write specifications -/
 theorem writes_seq (ws : List (WOp × (Nat → α) × List Iter)) (m : Nat → α)
